@@ -45,6 +45,7 @@ type rollCfg struct {
 	preExist bool       // a file with the start-up name already exists
 	restart  bool       // Stop/Start cycle in the middle (single writer)
 	maxAge   int32
+	conform  bool // replay every execution's filesystem call log on the real filesystem
 }
 
 type rollObs struct {
@@ -66,6 +67,9 @@ func (c rollCfg) name() string {
 	}
 	if c.restart {
 		s += "/restart"
+	}
+	if c.conform {
+		s += "/vfs-conformance"
 	}
 	return s
 }
@@ -217,8 +221,12 @@ func rollCheck(prop string, c rollCfg, o *rollObs, x *zzvrt.Exec) (string, []zzv
 		}
 		return false
 	}
-	// (B) interleaved: two rotations (file creations inside two different writers' calls) overlap.
-	type span struct{ a, b, tid int }
+	// (B) interleaved: two rotations for two different boundaries (file creations inside two different
+	// writers' calls, for different file names) overlap.
+	type span struct {
+		a, b, tid int
+		path      string
+	}
 	var rots []span
 	for _, call := range x.FS.Log {
 		if call.Op != "open" || call.Err != "" {
@@ -230,14 +238,16 @@ func rollCheck(prop string, c rollCfg, o *rollObs, x *zzvrt.Exec) (string, []zzv
 				if !w.returned {
 					e = 1 << 30
 				}
-				rots = append(rots, span{w.startStep, e, w.tid})
+				rots = append(rots, span{w.startStep, e, w.tid, call.Path})
 			}
 		}
 	}
 	interleaved := false
 	for i := range rots {
 		for j := range rots {
-			if i != j && rots[i].tid != rots[j].tid && rots[i].a <= rots[j].a && rots[j].a <= rots[i].b {
+			// two different boundaries: the files created belong to different intervals (two writers racing
+			// for the SAME boundary is the ordinary case the CAS is there for, not the known finding)
+			if i != j && rots[i].tid != rots[j].tid && rots[i].path != rots[j].path && rots[i].a <= rots[j].a && rots[j].a <= rots[i].b {
 				interleaved = true
 			}
 		}
@@ -305,6 +315,19 @@ func rollCheck(prop string, c rollCfg, o *rollObs, x *zzvrt.Exec) (string, []zzv
 	// the next boundary (checked on the call log)
 	if faulted {
 		v = append(v, c19Check(prop, key, len(c.writers) == 1, o, x, where)...)
+	}
+	if c.conform {
+		if theConformer == nil {
+			theConformer = newConformer()
+		}
+		initial := map[string]string{}
+		if c.preExist {
+			initial[rollDir+"/"+rollName+"."+rollStart.Format("20060102150405")] = "old-content\n"
+		}
+		conformCount++
+		if d := theConformer.replay(x, initial); d != "" {
+			add("*", "vfs-model-diverges-from-os", key, d)
+		}
 	}
 	fmt.Fprintf(&sb, "fds=%v", o.fdsQ)
 	return sb.String(), v
@@ -400,6 +423,16 @@ func init() {
 		reg(prop, rollCfg{writers: [][]string{{"a0", "a1"}}, restart: true}, "qt", bb{2, 2, 0}, bb{3, 3, 0})
 		reg(prop, rollCfg{writers: [][]string{{"a0", "a1"}, {"b0", "b1"}}}, "qt", bb{2, 2, 0}, bb{3, 3, 0})
 		reg(prop, rollCfg{writers: [][]string{{"a0"}, {"b0"}, {"c0"}}}, "t", bb{2, 2, 0}, bb{2, 3, 0})
+	}
+	// model <-> OS: every execution of these scenarios is replayed on the real filesystem
+	for _, prop := range []string{"C13", "C19", "C20"} {
+		f := 0
+		if prop == "C19" {
+			f = 1
+		}
+		reg(prop, rollCfg{writers: [][]string{{"a0", "a1", "a2"}}, conform: true}, "qt", bb{1, 2, f}, bb{2, 3, f})
+		reg(prop, rollCfg{writers: [][]string{{"a0", "a1"}}, preExist: true, restart: true, conform: true}, "qt", bb{1, 2, f}, bb{2, 2, f})
+		reg(prop, rollCfg{writers: [][]string{{"a0"}, {"b0", "b1"}}, conform: true}, "qt", bb{1, 2, 0}, bb{2, 2, 0})
 	}
 	// C19: the same harness with I/O faults as deviations
 	reg("C19", rollCfg{writers: [][]string{{"a0", "a1", "a2"}}}, "qt", bb{1, 3, 2}, bb{2, 3, 3})
